@@ -3,7 +3,9 @@
 Path strings from a grammar (components '.', '..', '', plain / blank /
 Unicode names, 'shards_list.json', split names; 1..3 separators; optional
 leading and trailing '/'; depth <= 8) plus absolute and relative spellings of
-a DECOY directory next to the dataset root.  Injection point: any path-valued
+a DECOY directory next to the dataset root (incl. look-alike characters which
+a compatibility normalisation folds to '.', '..' and '/', and a path through
+a harmless in-dataset symbolic link to the root followed by '..').  Injection point: any path-valued
 metadata field of an otherwise valid dataset (split entry in
 dataset_info.json, relative_path_self, child list entry, shard file entry) --
 with the checksum chain above the edited file recomputed and a decoy copy of
@@ -66,7 +68,8 @@ def st_path(draw):
             "abs-inside", "root-relative-up", "decoy-rel-backslash",
             "decoy-abs-backslash", "decoy-rel-mixed-sep",
             "decoy-abs-doubleslash", "decoy-abs-tripleslash",
-            "decoy-rel-deep", "decoy-rel-deep"
+            "decoy-rel-deep", "decoy-rel-deep", "decoy-rel-unicode",
+            "decoy-rel-via-link"
         ]))
     if kind == "grammar":
         comps = draw(st.lists(st_component(), min_size=1, max_size=8))
@@ -134,6 +137,20 @@ def concrete_path(spec, base_dir: str, root: str, decoy: str, tail: str,
         return "///" + os.path.join(decoy, tail).lstrip("/")
     if kind == "decoy-abs-backslash":
         return os.path.join(decoy, tail).replace("/", "\\")
+    if kind == "decoy-rel-unicode":
+        # characters which a compatibility normalisation (NFKC) folds to '.',
+        # '..' or '/': ordinary names for the file system, i.e. an in-root
+        # relative path -- unless somebody folds them after validation
+        if spec["noise"]:
+            return "..\uff0fdecoy\uff0f" + tail.replace("/", "\uff0f")
+        dots = ["\uff0e\uff0e", "\u2025", ".\uff0e", "\u2024\u2024"][
+            spec["ups"] % 4]
+        return dots + "/decoy/" + tail
+    if kind == "decoy-rel-via-link":
+        # <base>/up is a symbolic link to the dataset root (a harmless link
+        # inside the dataset): lexically "up/.." cancels out, physically it
+        # is the parent of the root
+        return base_dir + "/up/../decoy/" + tail
     ups = "../" * max(spec["ups"], 1)
     p = ups + "decoy/" + tail
     if kind == "decoy-rel-backslash":
@@ -260,6 +277,23 @@ def run_case(case, ctx):
             rehash_up(root, algos, host, parents)
         resolved = os.path.normpath(os.path.join(sroot, p))
         escapes = not inside(sroot, resolved)
+        via_link = case["path"]["kind"] == "decoy-rel-via-link"
+        if via_link:
+            link_dir = root / ("train" if point == "split-entry" else
+                               "train/sub")
+            os.symlink(sroot, link_dir / "up")
+        # where a reader that folds look-alike characters, or follows the
+        # link, would end up: plant a copy there as well
+        import unicodedata
+        alt = os.path.normpath(os.path.join(
+            sroot, unicodedata.normalize("NFKC", p)))
+        if via_link:
+            alt = os.path.realpath(os.path.join(sroot, p))
+        if (old is not None and case["plant"] and alt != resolved and
+                inside(str(sandbox), alt) and not inside(sroot, alt) and
+                not os.path.exists(alt)):
+            os.makedirs(os.path.dirname(alt), exist_ok=True)
+            shutil.copyfile(root / old, alt)
         # plant a decoy copy where the path resolves to (inside the sandbox)
         planted = None
         if old is not None and case["plant"] and inside(str(sandbox), resolved) \
@@ -277,6 +311,9 @@ def run_case(case, ctx):
             if event == "open" and args and isinstance(args[0], (str, bytes)):
                 path = os.fsdecode(args[0])
                 full = os.path.normpath(os.path.join(os.getcwd(), path))
+                if via_link:
+                    # the only case with a symbolic link in the sandbox
+                    full = os.path.realpath(os.path.join(os.getcwd(), path))
                 if inside(str(sandbox), full) and not inside(sroot, full):
                     outside_opens.append(full)
                 elif escapes and full == resolved:
